@@ -56,6 +56,8 @@ def random_program(rng, simu, mesh, nconds):
             nodes = nodes[np.array(rng.sample(range(nodes.size), nodes.size))]  # permuted
         if first:
             unk = list(unknowns)
+        elif c == 1 and dim > 1:
+            unk = list(unknowns)[::-1]          # several unknowns listed in non-canonical order, with distinct values per unknown
         else:
             k = rng.randint(1, dim)
             unk = rng.sample(list(unknowns), k)
@@ -82,9 +84,16 @@ def random_program(rng, simu, mesh, nconds):
         prog.append(dict(nodes=name, unknowns=unk, forms=spec))
     # loads
     name, nodes = rng.choice(selections[1:])
-    loadvals = [dy(rng, -2, 2) for _ in unknowns]
-    simu.add_neumann(nodes, loadvals, list(unknowns))
-    prog.append(dict(neumann=name, values=loadvals))
+    lunk = list(unknowns)[::-1] if rng.random() < 0.5 else list(unknowns)
+    loadvals = [dy(rng, -2, 2) + 0.125 * i for i, _ in enumerate(lunk)]
+    simu.add_neumann(nodes, loadvals, lunk)
+    prog.append(dict(neumann=name, values=loadvals, unknowns=lunk))
+    loads = {}
+    for uu, vv in zip(lunk, loadvals):
+        for n in nodes:
+            # add_neumann shares the entered value between the selected nodes (C09 point_load_total)
+            loads[int(n) * dim + list(unknowns).index(uu)] = loads.get(int(n) * dim + list(unknowns).index(uu), 0.0) + float(vv) / len(nodes)
+    random_program.loads = loads
     return expected, prog
 
 
@@ -141,10 +150,16 @@ def main():
             res.fail(f"Bc_vector_Dirichlet sim={kind}", "Bc_vector_Dirichlet() differs from the sum of the entered values", ident)
         free = np.setdiff1d(np.arange(n), dofs_c)
         fN = simu.Bc_vector_Neumann(pt)
+        wantN = np.zeros(n)
+        for dof_, val_ in random_program.loads.items():
+            wantN[dof_] = val_
+        res.case((it, "Bc_vector_Neumann"))
+        if np.abs(np.asarray(fN).ravel() - wantN).max() > 1e-12 * (1 + np.abs(wantN).max()):
+            res.fail(f"Bc_vector_Neumann sim={kind}", "Bc_vector_Neumann() differs from the point loads entered (value of each unknown on its own degree of freedom)", ident)
         r = K @ u - (np.asarray(F.todense()).ravel() + fN)
         scale = 1 + np.abs(K @ u).max()
         res.case((it, "residual"))
-        if np.abs(r[free]).max() > 1e-9 * scale:
+        if len(free) and np.abs(r[free]).max() > 1e-9 * scale:
             res.fail(f"residual sim={kind}", f"K u - F on free dofs = {np.abs(r[free]).max():.3e} (scale {scale:.3e})", ident)
         for backend, ub in sols.items():
             res.case((it, "backend", backend))
@@ -188,6 +203,30 @@ def main():
             res.fail("orphan-node", f"a node attached to no element makes the solution non-finite or moves: u_orphan = {u[2 * orphan:2 * orphan + 2]}", dict(Nn=int(meshO.Nn)))
     except Exception as ex:  # noqa: BLE001
         res.fail("orphan-node", f"solve with an orphan node raised {ex!r}", dict(Nn=int(meshO.Nn)))
+
+    # orphan node in the other problem types (a multi-field simulation solves a problem that is not its default one)
+    for okind in ("thermal", "phasefield"):
+        res.case(("orphan", okind))
+        try:
+            if okind == "thermal":
+                so = Simulations.Thermal(meshO, Models.Thermal(2.0, 1.0))
+                so.add_dirichlet(left, [1.0], ["t"])
+                so.add_neumann(right, [0.5], ["t"])
+                vals = {"temperature": np.asarray(so.Solve())}
+            else:
+                so = Simulations.PhaseField(meshO, Models.PhaseField(Models.Elastic.Isotropic(2, E=210.0, v=0.3, planeStress=True, thickness=1.0), "Amor", "AT2", 0.5, 0.4))
+                so.add_dirichlet(left, [0.0, 0.0], ["x", "y"])
+                so.add_dirichlet(right, [0.05], ["x"])
+                so.Solve()
+                vals = {"damage": np.asarray(so.damage), "displacement": np.asarray(so.displacement)}
+            for nm, arr in vals.items():
+                per = arr.reshape(meshO.Nn, -1)
+                if not np.all(np.isfinite(arr)) or np.abs(per[-1]).max() > 1e-12:
+                    res.fail(f"orphan-node sim={okind}", f"a node attached to no element makes the {nm} non-finite or non-zero there: {int((~np.isfinite(arr)).sum())} non-finite values, value at the orphan node {per[-1].tolist()}",
+                             dict(sim=okind, Nn=int(meshO.Nn)))
+                    break
+        except Exception as ex:  # noqa: BLE001
+            res.fail(f"orphan-node sim={okind}", f"solve with an orphan node raised {ex!r}"[:300], dict(sim=okind, Nn=int(meshO.Nn)))
 
     # ---------------- B3: beam connection (Lagrange path) vs one continuous beam (elimination) ----------------
     for et in (["SEG2", "SEG3"] if args.tier == "quick" else ["SEG2", "SEG3", "SEG4"]):
